@@ -539,7 +539,9 @@ func (x *fx) contractCall(fc *FuncContract, key string, names []string, ptypes [
 			e.note("clause of " + key + " not usable at call sites: " + err.Error())
 			continue
 		}
+		e.curGroup = groupOf(c.Props)
 		e.assume(implies(x.curReach, tv.T))
+		e.curGroup = ""
 	}
 	return out
 }
